@@ -499,6 +499,7 @@ class MutableMixin:
                        |human|knight|king|
             King Arthur|X    |X     |X   |
         """
+        properties = tuple(properties)
         self._objects.add(obj)
         self._properties |= properties
         self._pairs.update((obj, p) for p in properties)
@@ -527,6 +528,7 @@ class MutableMixin:
             holy grail|X         |
             Sir Robin |X         |
         """
+        objects = tuple(objects)
         self._properties.add(prop)
         self._objects |= objects
         self._pairs.update((o, prop) for o in objects)
@@ -644,6 +646,7 @@ class MutableMixin:
             King Arthur|     |    |
             holy grail |     |X   |
         """
+        properties = tuple(properties)
         self._objects.add(obj)
         self._properties |= properties
         properties = set(properties)
@@ -680,6 +683,7 @@ class MutableMixin:
             King Arthur|X    |
             holy grail |X    |
         """
+        objects = tuple(objects)
         self._properties.add(prop)
         self._objects |= objects
         objects = set(objects)
